@@ -85,4 +85,35 @@ PROPS = {
         trusted=["the recency list is modelled at the level of the ordered map's Spec (justified by C10.map_refines_spec)", "time.Now() in expirable.go is redirected to a virtual clock by a textual instrumenter applied to the CURRENT source at build time (overlay)"],
         explanation="C08.refines_reference: results and callback invocations equal those of a reference LRU (unordered residents + last-use stamps) for every call sequence, any capacity >= 1, any key mapping, any create/expiry oracle; size_le_cap; delete_callback_exactly_once",
     ),
+    "C17": dict(
+        lean=["GolibsVerif.Props.C17"],
+        seq=[dict(comp="blk", decisive=lambda d: d["op"].startswith("mon C17") or (not d["op"].startswith("hdr")))],
+        rule="cases = (geometry, buffer size, fit flag, preset header bytes, op sequence): 22 block sizes (negative, 0, non-powers of two, powers of two up to 2048, page size +-1, multiples of the page size) x 7 small buffer sizes + exact-fit/oversized/too-small buffers x fit; exhaustive sequences to depth 5 (quick) / 6 (thorough) over {ArrangeBlock, FreeBlock(first, second, last, out of range), Block, reopen-on-a-copy, Available} on bs=1 (1 and 2 segments, 4 preset header contents) and bs=2; random runs of 20..300 ops on bs in {1,2,4,8} with 1..3 segments; buffers larger than 200 kB run with Go-side monitors only; non-trivial = an allocation followed a free, a segment boundary was crossed, the state was (re)opened with allocations present, or an invalid geometry was rejected; distinct by hash of (header, ops)",
+        assumptions=["the Buffer is the in-memory implementation (a memory-mapped file behaves the same as far as the allocator can tell; mmap persistence is the kernel)", "fewer than 2^31 blocks (available is an int32)", "single caller in the correspondence run; concurrent callers are serialised by the allocator's mutex"],
+        trusted=["modelled, not verified: Buffer(offs,size) slicing, os.Getpagesize() (its value is passed to the model), sync/atomic counter"],
+        explanation="C17.refines_set (outputs equal to the set model for every op sequence from any opened allocator: least free index handed out, ErrExhausted iff full, Available exact, reopen reproduces the set), geometry_valid_iff_accepted, ranges_disjoint, reopen_same_state, data_untouched; legacy_accepts_invalid is the kernel-checked witness of D4",
+    ),
+    "C12": dict(
+        lean=["GolibsVerif.Props.C12"],
+        seq=[dict(comp="tmo", decisive=lambda d: d["op"].startswith("mon C12"))],
+        rule="cases = sequences of the dispatcher's critical sections driven on a private callControl through the package's own add()/cancel()/heap.Pop: exhaustive to depth 6 (quick) / 7 (thorough) over {add with fire time 1,2,3 (ties), cancel of each of the first 4 futures (repeated, after pop), pop}; random sequences of 10..120 ops with fire-time spreads 3/10/1000; the snapshot [(id, idx, fireT)] of the real heap array and the idx field of EVERY future created so far are compared after every op; non-trivial = a Cancel hit a non-last heap position or two equal deadlines coexisted; distinct by hash of the op list",
+        assumptions=["Cancel is only called on a future that Call returned (validOps)", "the watcher's decision `now.After(head.fireT)` and real timers are tied by the C13 trace run, not here"],
+        trusted=["modelled, not verified: Go's container/heap is TRANSCRIBED (up/down/Push/Pop/Remove) and proved; sync.Mutex makes every dispatcher section atomic"],
+        explanation="C12.idx_inv (index integrity + heap order for every sequence of critical sections), cancel_removes_exactly, never_early, at_most_once, cancel_before_due_never_starts, root_is_min",
+    ),
+    "C01": dict(
+        lean=["GolibsVerif.Props.C01"],
+        seq=[],
+        rule="(T correspondence pending)",
+    ),
+    "C04": dict(
+        lean=["GolibsVerif.Props.C04"],
+        seq=[],
+        rule="(T correspondence pending)",
+    ),
+    "C05": dict(
+        lean=["GolibsVerif.Props.C05"],
+        seq=[],
+        rule="(T correspondence pending)",
+    ),
 }
